@@ -153,6 +153,7 @@ struct Case {
     /// a wrapped iterator that is not fused: this call of next() returns None spuriously (checker-only cases)
     gap: Option<u64>,
     hintlie: i64,
+    clonecrash: Option<u64>,
 }
 
 fn on_parse(s: &str) -> Option<u64> {
@@ -222,6 +223,7 @@ fn read_cases(input: &mut dyn BufRead) -> Vec<Case> {
                     ctor: String::new(),
                     gap: None,
                     hintlie: 0,
+                    clonecrash: None,
                 })
             }
             "env" => {
@@ -268,6 +270,7 @@ fn read_cases(input: &mut dyn BufRead) -> Vec<Case> {
             "ctor" => cur.as_mut().unwrap().ctor = w[1].to_string(),
             "gap" => cur.as_mut().unwrap().gap = on_parse(w[1]),
             "hintlie" => cur.as_mut().unwrap().hintlie = w[1].parse().unwrap(),
+            "clonecrash" => cur.as_mut().unwrap().clonecrash = on_parse(w[1]),
             "multi" => {
                 let c = cur.as_mut().unwrap();
                 c.multi = w[1].parse().unwrap();
@@ -1111,6 +1114,8 @@ fn run_case(case: &Case) -> Vec<String> {
     SRC_CRASH.store(case.env.crash.map(|x| x as usize).unwrap_or(usize::MAX), Ordering::SeqCst);
     SRC_GAP.store(case.gap.map(|x| x as usize).unwrap_or(usize::MAX), Ordering::SeqCst);
     SRC_HINT_LIE.store(case.hintlie as isize, Ordering::SeqCst);
+    CLONE_CRASH.store(case.clonecrash.map(|x| x as usize).unwrap_or(usize::MAX), Ordering::SeqCst);
+    CLONES.store(0, Ordering::SeqCst);
     CALLER_PHASE.store(false, Ordering::SeqCst);
     let env = &case.env;
     if case.multi > 0 {
